@@ -15,6 +15,7 @@ import (
 	"strconv"
 	"strings"
 	"sync"
+	"unsafe"
 )
 
 type vfNondetRec struct {
@@ -244,4 +245,37 @@ func vfFieldLen(x any, path string) int {
 		v = v.Elem()
 	}
 	return v.Len()
+}
+
+func vfFieldAddr(x any, path string) reflect.Value {
+	v := reflect.ValueOf(x)
+	for _, name := range strings.Split(path, ".") {
+		for v.Kind() == reflect.Ptr || v.Kind() == reflect.Interface {
+			v = v.Elem()
+		}
+		v = v.FieldByName(name)
+	}
+	if v.Kind() == reflect.Struct {
+		v = v.FieldByName("v") // sync/atomic typed integers
+	}
+	return reflect.NewAt(v.Type(), unsafe.Pointer(v.UnsafeAddr())).Elem()
+}
+
+// vfFieldGetUint / vfFieldSetUint read and write an integer field (plain or sync/atomic typed)
+// reached from pointer x through named, possibly unexported, fields.
+func vfFieldGetUint(x any, path string) uint64 {
+	v := vfFieldAddr(x, path)
+	if v.CanUint() {
+		return v.Uint()
+	}
+	return uint64(v.Int())
+}
+
+func vfFieldSetUint(x any, path string, val uint64) {
+	v := vfFieldAddr(x, path)
+	if v.CanUint() {
+		v.SetUint(val)
+	} else {
+		v.SetInt(int64(val))
+	}
 }
